@@ -57,6 +57,7 @@ inductive Ex where
   | bin (op : Str) (a b : Ex)
   | tern (c a b : Ex)
   | len (e : Ex)
+  | call (name : Str) (e : Ex)
   deriving Repr, Inhabited
 
 abbrev P := Option (Ex × List Tk)
@@ -130,6 +131,10 @@ def parsePrimary : Nat → List Tk → P
         match parseExpr f r with
         | some (e, .rp :: r2) => some (.len e, r2)
         | _ => none
+      else if n == "upper".toList || n == "lower".toList || n == "trim".toList then
+        match parseExpr f r with
+        | some (e, .rp :: r2) => some (.call n e, r2)
+        | _ => none
       else none
     | .ident n :: r =>
       if n == "true".toList then some (.lit (.bool true), r)
@@ -198,6 +203,14 @@ def eval (env : Scope) : Ex → Res Val
     | .ok (.str s) => .ok (.int .int s.length)
     | .ok (.map _ kvs) => .ok (.int .int kvs.length)
     | .ok _ => .err "expr" []
+    | r => r
+  | .call name e =>
+    match eval env e with
+    | .ok (.str s) =>
+      if name == "upper".toList then .ok (.str (s.map (fun c => if 'a' ≤ c && c ≤ 'z' then Char.ofNat (c.toNat - 32) else c)))
+      else if name == "lower".toList then .ok (.str (s.map (fun c => if 'A' ≤ c && c ≤ 'Z' then Char.ofNat (c.toNat + 32) else c)))
+      else .ok (.str (trimSpace s))
+    | .ok v => .ok v
     | r => r
   | .tern c a b =>
     match eval env c with
